@@ -1218,7 +1218,7 @@ func runInChild(cfg out.Config, j int, jb job) []emitted {
 
 type job struct {
 	steps             []*caseSpec
-	goroutines, iters int // > 0: concurrent reuse
+	goroutines, iters int  // > 0: concurrent reuse
 	rebuild           bool // the steps are successive builds from ONE configuration value
 }
 
